@@ -95,6 +95,8 @@ def run_shard(shard, ctx, tier):
             for n in (1, 2):
                 for combo in itertools.product(range(len(ALPHA8)), repeat=n):
                     guarded_check(mod, {'rot': shard['rot'], 'shape': shard['shape'], 'ds': ds, 'combo': list(combo)}, ctx)
+                    if n == 2 and ROT_SHAPES[shard['shape']][1] >= 96 and combo[0] != combo[1]:
+                        guarded_check(mod, {'rot': shard['rot'], 'shape': shard['shape'], 'ds': ds, 'combo': list(combo), 'same_row': 1}, ctx)
 
 
 def ridge_geometry(r, shape):
@@ -143,8 +145,24 @@ def match_lines(b_list, ridges, ds):
     return out
 
 
+def ref_outline(b, h):
+    """independent reference of the text-line outline: every baseline point moved by the ascender against / the descender along the local
+    unit normal (direction to the next point, the last point re-uses the previous direction); upper edge left-to-right, lower edge back"""
+    import math
+    h0, h1 = max(1.0, float(h[0])), max(1.0, float(h[1]))
+    up, down = [], []
+    n = len(b)
+    for i in range(n):
+        j = i if i < n - 1 else n - 2
+        dx, dy = b[j + 1][0] - b[j][0], b[j + 1][1] - b[j][1]
+        L = math.hypot(dx, dy)
+        nx, ny = -dy / L, dx / L                      # unit normal pointing down (image coordinates)
+        up.append([b[i][0] - nx * h0, b[i][1] - ny * h0])
+        down.append([b[i][0] + nx * h1, b[i][1] + ny * h1])
+    return np.asarray(up + down[::-1], dtype=float)
+
+
 def check_lines(b_list, h_list, t_list, ridges, ds, ctx, K, desc, case):
-    from pero_ocr.layout_engines.layout_helpers import baseline_to_textline
     if len(b_list) != len(ridges):
         kind = 'missed' if len(b_list) < len(ridges) else 'extra'
         short = any(g['x1'] - g['x0'] + 1 <= 6 and g['ep'] for g in ridges)
@@ -173,9 +191,11 @@ def check_lines(b_list, h_list, t_list, ridges, ds, ctx, K, desc, case):
         if abs(h[0] - ds * g['h'][0]) > 1e-4 * ds or abs(h[1] - ds * g['h'][1]) > 1e-4 * ds:
             ctx.violation('heights-match', f'{K}/heights', f'{desc}: heights {list(h)}, map values x ds = {[ds * g["h"][0], ds * g["h"][1]]}', case)
             return False
-        want = baseline_to_textline(b, h)
-        if t.shape != want.shape or np.abs(t - want).max() > 1e-3:
-            ctx.violation('outline-from-baseline-and-heights', f'{K}/outline', f'{desc}: outline differs from baseline_to_textline(baseline, heights)', case)
+        want = ref_outline(b, h)
+        if t.shape != want.shape or np.abs(t - want).max() > 1e-2:
+            ctx.violation('outline-from-baseline-and-heights', f'{K}/outline',
+                          f'{desc}: outline {t.round(2).tolist()} is not the band of ascender {h[0]} above / descender {h[1]} below the baseline '
+                          f'{b.tolist()} (expected {want.round(2).tolist()})', case)
             return False
     return True
 
@@ -233,10 +253,15 @@ def check_rot(case, ctx):
         v = list(ALPHA8[a])
         v[1] = min(v[1], 2)                                   # lengths that fit the small maps
         ridges.append(ridge_geometry([rows[n] if shape_m[0] > 80 else n] + v, shape_m))
+    if case.get('same_row') and len(ridges) == 2 and shape_m[1] >= 96:
+        # two lines whose first baseline points sit on the same row (two columns of text)
+        g0, g1 = ridges
+        g0['x0'], g0['x1'], g0['slope'] = 5, 30, 0.0
+        g1['row'], g1['x0'], g1['x1'], g1['slope'] = g0['row'], 55, 85, 0.0
     maps_r = paint(ridges, shape_m)
     img_r = np.repeat(np.repeat(maps_r, ds, axis=0), ds, axis=1)        # image in the rotated frame
     img = np.rot90(img_r, k=-k).copy()                                  # the page: rot90(img, k) == img_r
-    ctx.state((k, case['shape'], ds, tuple(case['combo'])))
+    ctx.state((k, case['shape'], ds, tuple(case['combo']), case.get('same_row', 0)))
     eng = copy.copy(engine())
     eng.parsenet = StubParseNet(ds)
     ctx.reseed()
@@ -264,6 +289,8 @@ def check_rot(case, ctx):
         ctx.violation('heights-match', f'{K}/heights-differ', f'{desc}: {h1} vs {h0}', case)
         return
     ctx.outcome((k, len(b1), len(p1)))
+    if case.get('same_row'):
+        ctx.tag('two-lines-starting-on-the-same-row')
     if k and shape_m[0] != shape_m[1] and b1:
         ctx.nontrivial((k, case['shape'], ds, tuple(case['combo'])), 'rotated-non-square-pages')
 
@@ -285,5 +312,6 @@ def describe(tier):
                       'rotated_map_shapes': ROT_SHAPES},
         'assumptions': ['end points within 3 map px, rows within (1 + thickness/2) map px (+ slope x 3), heights exact for constant maps',
                         'the rotated pass is compared with the exact inverse rot90 of the layout decoded from the rotated image, tolerance 1 px'],
-        'min_nontrivial': 100, 'required_tags': ['several-ridges', 'with-end-point-responses', 'sloped-ridges', 'rotated-non-square-pages'],
+        'min_nontrivial': 100, 'required_tags': ['several-ridges', 'with-end-point-responses', 'sloped-ridges', 'rotated-non-square-pages',
+                          'two-lines-starting-on-the-same-row'],
     }
